@@ -516,6 +516,8 @@ Definition attrs (T : topo) : list oattr := map fst (table T).
 
 (* (depth, logical_index) identifies an object *)
 Definition keys_unique (T : topo) : bool := key_nodup (map akey (attrs T)).
+(* every object sits on a level hwloc_get_obj_by_depth can address *)
+Definition depths_addressable (T : topo) : bool := forallb (fun a => depth_addressable (t_nbl T) (a_depth a)) (attrs T).
 (* uint64_t fields hold uint64_t values *)
 Definition vals_u64 (T : topo) : bool := forallb (fun a => (a_lmem a <? U64) && (a_tmem a <? U64)) (attrs T).
 (* every object is named *)
